@@ -605,6 +605,10 @@ func checkSetIsIota(w *World, r *Result) {
 		if ix, ok := c.expr.(*ast.IndexExpr); ok && !c.truth && identOf(ix.X) != nil && objOf(info, identOf(ix.X)) == seenMap {
 			dupOK = true
 		}
+		// the same membership test in its comma-ok spelling (a set as map[T]struct{})
+		if m, _ := mapMembershipExpr(info, fi.Decl, c.expr); m != nil && m == seenMap && !c.truth {
+			dupOK = true
+		}
 	}
 	pos := w.Pos(seenStore.Pos())
 	r.cond(expOK, "AGR-C10b", name, "iota test counts exactly the exported constants", pos,
@@ -667,7 +671,26 @@ func checkSortHelper(w *World, r *Result) {
 	// whatever the helper, a sort.Slice comparator must read the slice it sorts
 	iota := w.MustFunc("analysis.(*Enum).setIsIota")
 	nslice := sortParallelRule(w, r, func(fi *FuncInfo) bool { return fi == iota })
-	t, ok := w.ByRel["analysis"].Types.Scope().Lookup("sortBy").(*types.TypeName)
+	// the sort.Interface helper is whatever named type of the package setIsIota hands to sort.Sort / sort.Stable
+	var t *types.TypeName
+	ast.Inspect(iota.Decl.Body, func(x ast.Node) bool {
+		call, ok := x.(*ast.CallExpr)
+		if !ok || len(call.Args) != 1 {
+			return true
+		}
+		if f := fullName(calleeOf(iota.Pkg.TypesInfo, call)); f != "sort.Sort" && f != "sort.Stable" {
+			return true
+		}
+		at := iota.Pkg.TypesInfo.TypeOf(call.Args[0])
+		if p, isPtr := at.(*types.Pointer); isPtr {
+			at = p.Elem()
+		}
+		if nt, isNamed := at.(*types.Named); isNamed && nt.Obj().Pkg() == iota.Obj.Pkg() {
+			t = nt.Obj()
+		}
+		return true
+	})
+	ok := t != nil
 	if !ok {
 		// no sort.Interface helper: the members must be sorted by a sort.Slice over e.Members itself
 		r.cond(nslice > 0, "AGR-C10s", iota.Name, "members sorted by value", fnPos(w, iota), "sorted by sort.Slice (comparator checked by SORT-PAR)", "setIsIota neither uses the sortBy helper nor sort.Slice: members are not sorted by increasing value before IsIota is set, while consumers use positions as values")
@@ -677,10 +700,22 @@ func checkSortHelper(w *World, r *Result) {
 	if !ok {
 		return
 	}
-	swap := w.Func("analysis.(sortBy).Swap")
-	less := w.Func("analysis.(sortBy).Less")
+	swap := methodOf(w, t.Type(), "Swap")
+	less := methodOf(w, t.Type(), "Less")
 	if swap == nil || less == nil {
-		Undecided("sortBy has no Swap/Less")
+		swap, less = methodOf(w, types.NewPointer(t.Type()), "Swap"), methodOf(w, types.NewPointer(t.Type()), "Less")
+	}
+	if swap == nil || less == nil {
+		Undecided("%s has no Swap/Less", t.Name())
+	}
+	// the key slice: the field of integer elements (the other one holds the members)
+	keyField := ""
+	for i := 0; i < st.NumFields(); i++ {
+		if sl, isSlice := st.Field(i).Type().Underlying().(*types.Slice); isSlice {
+			if b, isBasic := sl.Elem().Underlying().(*types.Basic); isBasic && b.Info()&types.IsInteger != 0 {
+				keyField = st.Field(i).Name()
+			}
+		}
 	}
 	swapped := map[string]bool{}
 	ast.Inspect(swap.Decl.Body, func(x ast.Node) bool {
@@ -711,7 +746,7 @@ func checkSortHelper(w *World, r *Result) {
 		if ret, ok := x.(*ast.ReturnStmt); ok && len(ret.Results) == 1 {
 			if be, ok := ret.Results[0].(*ast.BinaryExpr); ok && be.Op == token.LSS {
 				l, rr := es(be.X), es(be.Y)
-				if strings.Contains(l, "values[") && strings.Contains(rr, "values[") && l != rr {
+				if keyField != "" && strings.Contains(l, "."+keyField+"[") && strings.Contains(rr, "."+keyField+"[") && l != rr {
 					pi := less.Decl.Type.Params.List[0].Names
 					if len(pi) >= 1 && strings.Contains(l, "["+pi[0].Name+"]") {
 						lessOK = true
